@@ -4,6 +4,10 @@ current source; everything else must have exactly the anchored shape (Broken oth
 import re
 from extract import rd, Broken
 
+# own generated file coq/gen/ExtractedP2P.v (logical name WH.gen.ExtractedP2P)
+TARGET = "ExtractedP2P"
+HEADER = "From Coq Require Import List ZArith Arith Bool Strings.Byte.\nImport ListNotations.\nOpen Scope Z_scope.\n"
+
 DUR = {"time.Second": 10**9, "time.Minute": 60 * 10**9, "time.Hour": 3600 * 10**9, "time.Millisecond": 10**6}
 
 
@@ -93,9 +97,11 @@ def x_p2p_verify():
         if ma and ma.group(1) in names:
             pre[key] = "%s ++ b" % names[ma.group(1)]
             info[key + "_preimage"] = "%s ++ payload" % ma.group(1)
+            info[key + "_pre_hex"] = pf[ma.group(1)].hex()
         elif arg == "b":
             pre[key] = "b"
             info[key + "_preimage"] = "payload (no prefix)"
+            info[key + "_pre_hex"] = ""
         else:
             raise Broken("%s: hashed expression %r not understood" % (fn, arg))
     out = []
